@@ -252,4 +252,292 @@ theorem iso3_invMul_swap (a b : Iso3 K) (ha : Unit3 a) (hb : Unit3 b) :
 example : Unit3 (⟨0, 0, 3/5, 4/5, ⟨1, -2, 3⟩⟩ : Iso3 ℚ) ∧ Unit3 (⟨1/2, -1/2, 1/2, 1/2, ⟨0, 7, 1/3⟩⟩ : Iso3 ℚ) := by
   unfold Unit3; norm_num
 
+/-! ## Part 2 — flipping helpers and mirrored wrappers -/
+
+/-- `Contact::flipped` is an involution. -/
+theorem contact_flipped_flipped (c : Contact3 K) : c.flipped.flipped = c := rfl
+
+/-- `ClosestPoints::flipped` is an involution. -/
+theorem closestPoints_flipped_flipped (c : ClosestPoints3 K) : c.flipped.flipped = c := by
+  cases c <;> rfl
+
+/-- `ShapeCastHit::swapped` is an involution and keeps the time of impact and status. -/
+theorem hit_swapped_swapped (h : ShapeCastHit3 K) :
+    h.swapped.swapped = h ∧ h.swapped.toi = h.toi ∧ h.swapped.status = h.status := ⟨rfl, rfl, rfl⟩
+
+/-- flipping commutes with the world transform once the poses are exchanged too (`Contact`). -/
+theorem contact_flipped_transformBy (c : Contact3 K) (p1 p2 : Iso3 K) :
+    letI := fieldNum K sq
+    (c.transformBy p1 p2).flipped = c.flipped.transformBy p2 p1 := rfl
+
+/-- flipping commutes with the world transform once the poses are exchanged too (`ClosestPoints`). -/
+theorem closestPoints_flipped_transformBy (c : ClosestPoints3 K) (p1 p2 : Iso3 K) :
+    letI := fieldNum K sq
+    (c.transformBy p1 p2).flipped = c.flipped.transformBy p2 p1 := by
+  cases c <;> rfl
+
+/-- **ball/ball distance is symmetric**: swapping the balls (so `pos12 ↦ pos12⁻¹`) gives the same distance,
+and the same intersection verdict. -/
+theorem ballBall_distance_swap (pos12 : Iso3 K) (r1 r2 : K) (h : Unit3 pos12) :
+    letI := fieldNum K sq
+    distanceBallBall r2 pos12.inverse.t r1 = distanceBallBall r1 pos12.t r2 ∧
+    intersectionTestBallBall pos12.inverse.t r2 r1 = intersectionTestBallBall pos12.t r1 r2 := by
+  simp only [distanceBallBall, intersectionTestBallBall]
+  rw [inverse_t_normSq sq pos12 h, add_comm r2 r1]
+  exact ⟨rfl, rfl⟩
+
+/-- **ball/ball contact is mirrored**: for distinct centres, `contact_ball_ball(pos12⁻¹, b2, b1)` is the flipped
+`contact_ball_ball(pos12, b1, b2)` (same `dist`, same `None` verdict, points and normals exchanged). -/
+theorem ballBall_contact_swap (pos12 : Iso3 K) (r1 r2 pred : K) (h : Unit3 pos12)
+    (ht : pos12.t.x * pos12.t.x + pos12.t.y * pos12.t.y + pos12.t.z * pos12.t.z ≠ 0) :
+    letI := fieldNum K sq
+    contactBallBall pos12.inverse r2 r1 pred = (contactBallBall pos12 r1 r2 pred).map Contact3.flipped := by
+  have e := rot_invRot sq pos12 ⟨-pos12.t.x, -pos12.t.y, -pos12.t.z⟩ h
+  have hn : @V3.normSq K (fieldNum K sq) pos12.t ≠ 0 := by simpa [V3.normSq, V3.dot] using ht
+  simp only [contactBallBall, V3.normalize, V3.norm]
+  rw [inverse_t_normSq sq pos12 h, add_comm r2 r1]
+  have hsqrt : ∀ x, @Num.sqrt K (fieldNum K sq) x = sq x := fun _ => rfl
+  simp only [fieldNum_neq, hn, decide_false, Bool.not_false, if_true, hsqrt]
+  generalize sq (@V3.normSq K (fieldNum K sq) pos12.t) = s
+  split_ifs with c
+  · obtain ⟨i, j, k, w, tx, ty, tz⟩ := pos12
+    simp only [Option.map_some, Contact3.flipped, Iso3.inverse, Iso3.invRot, Iso3.rot, Iso3.qv, Iso3.rotQ, V3.add,
+      V3.neg, V3.smul, V3.sdiv, V3.cross, fieldNum_two, Option.some.injEq, Contact3.mk.injEq, V3.mk.injEq, neg_neg] at e ⊢
+    obtain ⟨e1, e2, e3⟩ := e
+    refine ⟨⟨?_, ?_, ?_⟩, ⟨?_, ?_, ?_⟩, ⟨?_, ?_, ?_⟩, ⟨?_, ?_, ?_⟩, trivial⟩
+    · ring
+    · ring
+    · ring
+    · linear_combination (-(r1 * s⁻¹)) * e1
+    · linear_combination (-(r1 * s⁻¹)) * e2
+    · linear_combination (-(r1 * s⁻¹)) * e3
+    · ring
+    · ring
+    · ring
+    · linear_combination (-s⁻¹) * e1
+    · linear_combination (-s⁻¹) * e2
+    · linear_combination (-s⁻¹) * e3
+  · rfl
+
+example : Unit3 (⟨0, 0, 3/5, 4/5, ⟨1, -2, 3⟩⟩ : Iso3 ℚ) ∧ (1 : ℚ) * 1 + (-2) * (-2) + 3 * 3 ≠ 0 := by
+  unfold Unit3; norm_num
+
+/-- **ball/ball closest points are mirrored** (any centres). -/
+theorem ballBall_closestPoints_swap (pos12 : Iso3 K) (r1 r2 margin : K) (h : Unit3 pos12) :
+    letI := fieldNum K sq
+    closestPointsBallBall pos12.inverse r2 r1 margin =
+      (closestPointsBallBall pos12 r1 r2 margin).map ClosestPoints3.flipped := by
+  have e := rot_invRot sq pos12 ⟨-pos12.t.x, -pos12.t.y, -pos12.t.z⟩ h
+  have hsqrt : ∀ x, @Num.sqrt K (fieldNum K sq) x = sq x := fun _ => rfl
+  simp only [closestPointsBallBall, V3.normalize, V3.norm, inverse_t_normSq sq pos12 h, add_comm r2 r1, hsqrt]
+  generalize sq (@V3.normSq K (fieldNum K sq) pos12.t) = s
+  split_ifs with c1 c2 c3
+  all_goals try rfl
+  · obtain ⟨i, j, k, w, tx, ty, tz⟩ := pos12
+    simp only [Option.map_some, ClosestPoints3.flipped, Iso3.inverse, Iso3.invRot, Iso3.rot, Iso3.qv, Iso3.rotQ, V3.add,
+      V3.neg, V3.smul, V3.sdiv, V3.cross, fieldNum_two, Option.some.injEq, ClosestPoints3.withinMargin.injEq,
+      V3.mk.injEq, neg_neg] at e ⊢
+    obtain ⟨e1, e2, e3⟩ := e
+    refine ⟨⟨?_, ?_, ?_⟩, ⟨?_, ?_, ?_⟩⟩
+    · ring
+    · ring
+    · ring
+    · linear_combination (-(r1 * s⁻¹)) * e1
+    · linear_combination (-(r1 * s⁻¹)) * e2
+    · linear_combination (-(r1 * s⁻¹)) * e3
+
+/-- **half-space wrappers, all four queries**: for a unit `pos12`, the query with the half-space second, evaluated
+at `pos12⁻¹`, is the flipped result of the query with the half-space first at `pos12` — and conversely.
+(`contactSH` is the corrected wrapper; see `contactSH_pinned_not_mirrored` for the pinned tree.) -/
+theorem halfspace_swap (pos12 : Iso3 K) (n : V3 K) (S : SupportMap3 K) (param : K) (h : Unit3 pos12) :
+    letI := fieldNum K sq
+    (distanceSH pos12.inverse S n = distanceHS pos12 n S ∧
+     intersectionTestSH pos12.inverse S n = intersectionTestHS pos12 n S ∧
+     closestPointsSH pos12.inverse S n param = (closestPointsHS pos12 n S param).map ClosestPoints3.flipped ∧
+     contactSH pos12.inverse S n param = (contactHS pos12 n S param).map Contact3.flipped) ∧
+    (distanceHS pos12.inverse n S = distanceSH pos12 S n ∧
+     intersectionTestHS pos12.inverse n S = intersectionTestSH pos12 S n ∧
+     closestPointsHS pos12.inverse n S param = (closestPointsSH pos12 S n param).map ClosestPoints3.flipped ∧
+     contactHS pos12.inverse n S param = (contactSH pos12 S n param).map Contact3.flipped) := by
+  refine ⟨?_, rfl, rfl, ?_, ?_⟩
+  · simp only [distanceSH, intersectionTestSH, closestPointsSH, contactSH, iso3_inverse_inverse sq pos12 h, and_self]
+  · simp only [closestPointsSH, Option.map_map]
+    cases @closestPointsHS K (fieldNum K sq) (inv' pos12) n S param with
+    | none => rfl
+    | some c => cases c <;> rfl
+  · simp only [contactSH, Option.map_map]
+    cases @contactHS K (fieldNum K sq) (inv' pos12) n S param <;> rfl
+
+example : Unit3 (⟨0, 0, 3/5, 4/5, ⟨1, -2, 3⟩⟩ : Iso3 ℚ) := by unfold Unit3; norm_num
+
+/-- `closest_points_*_ball` is built from the contact: flipping the contact flips the closest points. -/
+theorem closestPointsOfContact_flipped (c : Option (Contact3 K)) :
+    letI := fieldNum K sq
+    closestPointsOfContact (c.map Contact3.flipped) = (closestPointsOfContact c).flipped := by
+  cases c with
+  | none => rfl
+  | some c =>
+    simp only [closestPointsOfContact, Option.map_some, Contact3.flipped]
+    split_ifs <;> rfl
+
+/-- **ball / convex-polyhedron wrappers** (`contact_`, `distance_`, `closest_points_ball_convex_polyhedron`,
+`intersection_test_ball_point_query`), for *any* canonical sibling `f`: the route with the ball first, evaluated at
+`pos12⁻¹`, equals the flipped canonical route at `pos12`, and conversely (first block needs `|q| = 1`). -/
+theorem ballConvex_swap (fc : Iso3 K → Option (Contact3 K)) (fd : Iso3 K → K) (fi : Iso3 K → Bool)
+    (pos12 : Iso3 K) (h : Unit3 pos12) :
+    letI := fieldNum K sq
+    (contactBallCP fc pos12.inverse = (fc pos12).map Contact3.flipped ∧
+     distanceBallCP fd pos12.inverse = fd pos12 ∧
+     intersectionTestBallPQ fi pos12.inverse = fi pos12 ∧
+     closestPointsBallCP fc pos12.inverse = (closestPointsCPBall fc pos12).flipped) ∧
+    (fc pos12.inverse = (contactBallCP fc pos12).map Contact3.flipped ∧
+     fd pos12.inverse = distanceBallCP fd pos12 ∧
+     fi pos12.inverse = intersectionTestBallPQ fi pos12 ∧
+     closestPointsCPBall fc pos12.inverse = (closestPointsBallCP fc pos12).flipped) := by
+  refine ⟨?_, ?_, rfl, rfl, ?_⟩
+  · simp only [contactBallCP, distanceBallCP, intersectionTestBallPQ, closestPointsBallCP, closestPointsCPBall,
+      iso3_inverse_inverse sq pos12 h, closestPointsOfContact_flipped, and_self]
+  · simp only [contactBallCP, Option.map_map]
+    cases fc (inv' pos12) <;> rfl
+  · simp only [closestPointsBallCP, closestPointsCPBall, contactBallCP, closestPointsOfContact_flipped,
+      closestPoints_flipped_flipped]
+
+/-- both shapes are balls (the only closed form with a tie at coincident centres) -/
+def BallPair : Shape3 K → Shape3 K → Prop
+  | .ball _, .ball _ => True
+  | _, _ => False
+
+/-- **Swap symmetry of the closed-form corner of the dispatcher** (`details::contact_*` as routed by
+`DefaultQueryDispatcher::contact` for ball/ball, half-space/support-map, support-map/half-space):
+`contact(pos12⁻¹, s2, s1) = contact(pos12, s1, s2).flipped()`; for two balls the centres must be distinct. -/
+theorem detailsContact_swap (s1 s2 : Shape3 K) (pos12 : Iso3 K) (pred : K) (h : Unit3 pos12)
+    (ht : BallPair s1 s2 → pos12.t.x * pos12.t.x + pos12.t.y * pos12.t.y + pos12.t.z * pos12.t.z ≠ 0) :
+    letI := fieldNum K sq
+    detailsContact s2 s1 pos12.inverse pred = (detailsContact s1 s2 pos12 pred).map (Option.map Contact3.flipped) := by
+  cases s1 <;> cases s2 <;>
+    simp only [detailsContact, Shape3.supportMap, Option.map_some, Option.map_none, Option.some.injEq]
+  · exact ballBall_contact_swap sq pos12 _ _ pred h (ht trivial)
+  · exact (halfspace_swap sq pos12 _ _ pred h).2.2.2.2
+  · exact (halfspace_swap sq pos12 _ _ pred h).2.2.2.2
+  · exact (halfspace_swap sq pos12 _ _ pred h).1.2.2.2
+  · exact (halfspace_swap sq pos12 _ _ pred h).1.2.2.2
+
+/-- **Swap symmetry, `distance` and `intersection_test`** on the closed-form corner. -/
+theorem detailsDistance_swap (s1 s2 : Shape3 K) (pos12 : Iso3 K) (h : Unit3 pos12) :
+    letI := fieldNum K sq
+    detailsDistance s2 s1 pos12.inverse = detailsDistance s1 s2 pos12 ∧
+    detailsIntersectionTest s2 s1 pos12.inverse = detailsIntersectionTest s1 s2 pos12 := by
+  cases s1 <;> cases s2 <;>
+    simp only [detailsDistance, detailsIntersectionTest, Shape3.supportMap, Option.map_some, Option.map_none,
+      Option.some.injEq, and_self]
+  · exact ballBall_distance_swap sq pos12 _ _ h
+  · exact ⟨(halfspace_swap sq pos12 _ _ 0 h).2.1, (halfspace_swap sq pos12 _ _ 0 h).2.2.1⟩
+  · exact ⟨(halfspace_swap sq pos12 _ _ 0 h).2.1, (halfspace_swap sq pos12 _ _ 0 h).2.2.1⟩
+  · exact ⟨(halfspace_swap sq pos12 _ _ 0 h).1.1, (halfspace_swap sq pos12 _ _ 0 h).1.2.1⟩
+  · exact ⟨(halfspace_swap sq pos12 _ _ 0 h).1.1, (halfspace_swap sq pos12 _ _ 0 h).1.2.1⟩
+
+/-- **Swap symmetry, `closest_points`** on the closed-form corner (all centres, all margins). -/
+theorem detailsClosestPoints_swap (s1 s2 : Shape3 K) (pos12 : Iso3 K) (margin : K) (h : Unit3 pos12) :
+    letI := fieldNum K sq
+    detailsClosestPoints s2 s1 pos12.inverse margin =
+      (detailsClosestPoints s1 s2 pos12 margin).map (Option.map ClosestPoints3.flipped) := by
+  cases s1 <;> cases s2 <;>
+    simp only [detailsClosestPoints, Shape3.supportMap, Option.map_some, Option.map_none, Option.some.injEq]
+  · exact ballBall_closestPoints_swap sq pos12 _ _ margin h
+  · exact (halfspace_swap sq pos12 _ _ margin h).2.2.2.1
+  · exact (halfspace_swap sq pos12 _ _ margin h).2.2.2.1
+  · exact (halfspace_swap sq pos12 _ _ margin h).1.2.2.1
+  · exact (halfspace_swap sq pos12 _ _ margin h).1.2.2.1
+
+/-! ## Part 3 — the free functions: frame independence and swap symmetry -/
+
+/-- **Frame independence, scalar queries** (`query::distance`, `query::intersection_test`), for *any*
+dispatcher-level function `d`: a common unit isometry applied to both poses does not change the answer. -/
+theorem query_scalar_frame {α : Type} (d : Iso3 K → α) (g p1 p2 : Iso3 K) (hg : Unit3 g) (h1 : Unit3 p1) :
+    letI := fieldNum K sq
+    queryDistance d (g.mul p1) (g.mul p2) = queryDistance d p1 p2 ∧
+    queryIntersectionTest d (g.mul p1) (g.mul p2) = queryIntersectionTest d p1 p2 := by
+  simp only [queryDistance, queryIntersectionTest, iso3_invMul_frame sq g p1 p2 hg h1, and_self]
+
+/-- **Frame independence, `query::closest_points`**: the world-space witnesses are moved by `g`. -/
+theorem queryClosestPoints_frame (d : Iso3 K → ClosestPoints3 K) (g p1 p2 : Iso3 K)
+    (hg : Unit3 g) (h1 : Unit3 p1) (h2 : Unit3 p2) :
+    letI := fieldNum K sq
+    queryClosestPoints d (g.mul p1) (g.mul p2) = (queryClosestPoints d p1 p2).transformBy g g := by
+  simp only [queryClosestPoints, iso3_invMul_frame sq g p1 p2 hg h1]
+  cases d (@Iso3.invMul K (fieldNum K sq) p1 p2) with
+  | withinMargin a b =>
+    simp only [ClosestPoints3.transformBy, (iso3_mul_act sq g p1 a hg h1).1, (iso3_mul_act sq g p2 b hg h2).1]
+  | intersecting => rfl
+  | disjoint => rfl
+
+/-- **Frame independence, `query::contact`**: same `dist`, same `None` verdict; world-space points are moved by `g`
+and normals rotated by `g`. -/
+theorem queryContact_frame (d : Iso3 K → Option (Contact3 K)) (g p1 p2 : Iso3 K)
+    (hg : Unit3 g) (h1 : Unit3 p1) (h2 : Unit3 p2) :
+    letI := fieldNum K sq
+    queryContact d (g.mul p1) (g.mul p2) = (queryContact d p1 p2).map fun c => c.transformBy g g := by
+  simp only [queryContact, iso3_invMul_frame sq g p1 p2 hg h1]
+  cases d (@Iso3.invMul K (fieldNum K sq) p1 p2) with
+  | none => rfl
+  | some c =>
+    simp only [Option.map_some, Contact3.transformBy, (iso3_mul_act sq g p1 _ hg h1).1, (iso3_mul_act sq g p2 _ hg h2).1,
+      (iso3_mul_act sq g p1 _ hg h1).2, (iso3_mul_act sq g p2 _ hg h2).2]
+
+/-- **Frame independence, `query::cast_shapes`**: with both velocities rotated by `g`, the dispatcher sees the
+same `pos12` and the same `vel12`. -/
+theorem queryCastShapes_frame {α : Type} (d : Iso3 K → V3 K → α) (g p1 p2 : Iso3 K) (v1 v2 : V3 K)
+    (hg : Unit3 g) (h1 : Unit3 p1) :
+    letI := fieldNum K sq
+    queryCastShapes d (g.mul p1) (g.rot v1) (g.mul p2) (g.rot v2) = queryCastShapes d p1 v1 p2 v2 := by
+  simp only [queryCastShapes, iso3_invMul_frame sq g p1 p2 hg h1, mul_invRot sq g p1 _ hg h1, ← rot_sub,
+    invRot_rot sq g _ hg]
+
+/-- **Swap symmetry of the free functions.**  If the dispatcher-level functions for the two orders are mirrored
+(`d21 m⁻¹ = flip (d12 m)` for unit `m` — `detailsContact_swap` etc.), then the world-frame answers are mirrored:
+`query(pos2, g2, pos1, g1) = flip (query(pos1, g1, pos2, g2))`, for contacts, closest points and scalars. -/
+theorem query_swap (c12 c21 : Iso3 K → Option (Contact3 K)) (k12 k21 : Iso3 K → ClosestPoints3 K)
+    {α : Type} (s12 s21 : Iso3 K → α) (p1 p2 : Iso3 K) (h1 : Unit3 p1) (h2 : Unit3 p2)
+    (hc : letI := fieldNum K sq; ∀ m, Unit3 m → c21 m.inverse = (c12 m).map Contact3.flipped)
+    (hk : letI := fieldNum K sq; ∀ m, Unit3 m → k21 m.inverse = (k12 m).flipped)
+    (hs : letI := fieldNum K sq; ∀ m, Unit3 m → s21 m.inverse = s12 m) :
+    letI := fieldNum K sq
+    queryContact c21 p2 p1 = (queryContact c12 p1 p2).map Contact3.flipped ∧
+    queryClosestPoints k21 p2 p1 = (queryClosestPoints k12 p1 p2).flipped ∧
+    queryDistance s21 p2 p1 = queryDistance s12 p1 p2 ∧
+    queryIntersectionTest s21 p2 p1 = queryIntersectionTest s12 p1 p2 := by
+  have hu := unit3_invMul sq p1 p2 h1 h2
+  simp only [queryContact, queryClosestPoints, queryDistance, queryIntersectionTest, iso3_invMul_swap sq p1 p2 h1 h2,
+    hc _ hu, hk _ hu, hs _ hu, and_self, and_true]
+  constructor
+  · cases c12 (@Iso3.invMul K (fieldNum K sq) p1 p2) <;> rfl
+  · cases k12 (@Iso3.invMul K (fieldNum K sq) p1 p2) <;> rfl
+
+/-- **Swapped `cast_shapes`**: with the arguments exchanged the dispatcher receives `pos21 = pos12⁻¹` and
+`vel21 = -(pos12⁻¹ · vel12)` — exactly what the mirrored cast wrappers construct from `(pos12, vel12)`. -/
+theorem queryCastShapes_swap {α : Type} (d : Iso3 K → V3 K → α) (p1 p2 : Iso3 K) (v1 v2 : V3 K)
+    (h1 : Unit3 p1) (h2 : Unit3 p2) :
+    letI := fieldNum K sq
+    queryCastShapes d p2 v2 p1 v1 =
+      d (p1.invMul p2).inverse ((p1.invMul p2).invRot (p1.invRot (v2.sub v1))).neg := by
+  simp only [queryCastShapes, iso3_invMul_swap sq p1 p2 h1 h2, invMul_invRot sq p1 p2 _ h1 h2, rot_invRot sq p1 _ h1,
+    ← invRot_neg, V3.neg_sub']
+
+example : Unit3 (⟨0, 0, 3/5, 4/5, ⟨1, -2, 3⟩⟩ : Iso3 ℚ) ∧ Unit3 (⟨2/3, 1/3, 2/3, 0, ⟨0, 0, 0⟩⟩ : Iso3 ℚ) := by
+  unfold Unit3; norm_num
+
+/-! ## Part 4 — the pinned tree -/
+
+/-- **Defect witness.**  `contact_support_map_halfspace` *as written on the pinned tree* (no `pos12.inverse()`) is
+not the mirror of `contact_halfspace_support_map`: unit cube, half-space `y ≤ 0` placed at `(0,-3,0)` without
+rotation, prediction 5 (exact rational instance).  The true gap is 2; the pinned wrapper reports `dist = -4`. -/
+theorem contactSH_pinned_not_mirrored :
+    let pos12 : Iso3 Rat := ⟨0, 0, 0, 1, ⟨0, -3, 0⟩⟩
+    let S : SupportMap3 Rat := cuboidSupportMap ⟨1, 1, 1⟩
+    let n : V3 Rat := ⟨0, 1, 0⟩
+    (contactSH_pinned pos12 S n 5).map (·.dist) = some (-4) ∧
+    ((contactHS pos12.inverse n S 5).map Contact3.flipped).map (·.dist) = some 2 ∧
+    (contactSH pos12 S n 5).map (·.dist) = some 2 := by
+  decide +kernel
+
 end C03
